@@ -70,6 +70,12 @@ def gen_patcher(rng, st):
     return [st["npatch"], rng.below(NKEYS + 1), st["serial"]]   # key NKEYS = a key no layer uses
 
 
+def gen_exc(rng):
+    if rng.chance(40):
+        return "exception"
+    return rng.choice(["keyboardinterrupt", "systemexit", "generatorexit", "cancellederror", "baseexception"])
+
+
 def pick_logger(rng, st):
     n = st["nlog"]
     if rng.chance(50):
@@ -85,9 +91,13 @@ def gen_program(rng, maxops, maxctx, asyncio_mode):
     nctx = 1
     trace = []
 
+    started = set()     # contexts that have executed at least one operation (a task not yet started
+                        # cannot be cancelled "inside" anything)
+
     def emit(c, **op):
         op["c"] = c
         trace.append(op)
+        started.add(c)
 
     if rng.chance(92):
         emit(0, op="add")
@@ -113,10 +123,19 @@ def gen_program(rng, maxops, maxctx, asyncio_mode):
                 emit(c, op="exit")
                 depth[c] -= 1
         elif r < 62:
-            if d > 0:
+            if d > 0 and (not asyncio_mode or rng.chance(60)):
                 k = rng.range(1, d)
-                emit(c, op="raise", k=k)
+                emit(c, op="raise", k=k, exc=gen_exc(rng))
                 depth[c] -= k
+            elif asyncio_mode:
+                # cancel another task that is suspended (possibly inside blocks); it catches the
+                # CancelledError after leaving k of its blocks (k = 0: cleanup handler inside the block)
+                others = [x for x in alive if x != c and x in started]
+                if others:
+                    x = rng.choice(others)
+                    k = rng.range(0, depth[x])
+                    emit(c, op="cancel", target=x, k=k)
+                    depth[x] -= k
         elif r < 72:
             emit(c, op="bind", l=pick_logger(rng, st), kw=gen_kw(rng, st, 0 if rng.chance(10) else 1, 3))
             st["nlog"] += 1
@@ -154,7 +173,7 @@ def gen_program(rng, maxops, maxctx, asyncio_mode):
         c = rng.choice(alive)
         if depth[c] > 0:
             if rng.chance(25):
-                emit(c, op="raise", k=depth[c])
+                emit(c, op="raise", k=depth[c], exc=gen_exc(rng))
                 depth[c] = 0
             else:
                 emit(c, op="exit")
@@ -183,7 +202,9 @@ def op_token(op):
     if k == "exit":
         return "%d:X" % c
     if k == "raise":
-        return "%d:R:%d" % (c, op["k"])
+        return "%d:R:%d:%s" % (c, op["k"], "e" if op.get("exc", "exception") == "exception" else "b")
+    if k == "cancel":      # seen from the model: the TARGET leaves k blocks by a BaseException
+        return "%d:R:%d:b" % (op["target"], op["k"])
     if k == "log":
         return "%d:L:%d:%s" % (c, op["l"], kw_tok(op["kw"]))
     if k == "bind":
@@ -269,7 +290,11 @@ class Spec:
         elif k == "exit":
             self.blocks[c].pop()
         elif k == "raise":
+            # whatever the exception class: the blocks it propagates out of are left
             del self.blocks[c][len(self.blocks[c]) - op["k"]:]
+        elif k == "cancel":
+            x = op["target"]
+            del self.blocks[x][len(self.blocks[x]) - op["k"]:]
         elif k == "spawn":
             self.inherited[op["new"]] = self.ctx_layer(c) if op["copy"] else {}
             self.blocks[op["new"]] = []
@@ -325,10 +350,46 @@ class Spec:
 
 
 # ============================================================================ implementation runner
-class _Boom(Exception):
-    def __init__(self, k):
-        super().__init__("boom")
-        self.k = k
+class _BoomMixin:
+    """carried by every exception the programme raises on purpose: k = number of blocks still to leave"""
+    k = 0
+
+
+class _Boom(_BoomMixin, Exception):
+    pass
+
+
+class _BoomKI(_BoomMixin, KeyboardInterrupt):
+    pass
+
+
+class _BoomSE(_BoomMixin, SystemExit):
+    pass
+
+
+class _BoomGE(_BoomMixin, GeneratorExit):
+    pass
+
+
+class _BoomCE(_BoomMixin, asyncio.CancelledError):
+    pass
+
+
+class _BoomBase(_BoomMixin, BaseException):
+    pass
+
+
+# how a block can be left by an exception; everything but "exception" is a BaseException that is NOT an
+# Exception (the class the interpreter, asyncio and generators use to unwind: Ctrl-C, sys.exit(), a closed
+# generator, a cancelled task)
+EXC_KINDS = {"exception": _Boom, "keyboardinterrupt": _BoomKI, "systemexit": _BoomSE, "generatorexit": _BoomGE,
+             "cancellederror": _BoomCE, "baseexception": _BoomBase}
+
+
+def make_boom(kind, k):
+    b = EXC_KINDS[kind]()
+    b.k = k
+    return b
 
 
 class _Turn:
@@ -470,14 +531,30 @@ class Run:
         if first_done:
             w.finish()
         while True:
-            op = await w.turn()
+            try:
+                op = await w.turn()
+            except asyncio.CancelledError:
+                # this task was cancelled by another context while suspended here
+                if w.cancel_k is None:
+                    raise
+                if w.cancel_k == 0:        # cleanup handler inside the innermost block: nothing is left
+                    w.cancel_k = None
+                    w.uncancel()
+                    w.finish()             # completes the canceller's operation
+                    continue
+                raise
             k = op["op"]
             if k == "exit":
                 return "exit"
             if k == "end":
                 return "end"
             if k == "raise":
-                raise _Boom(op["k"])
+                raise make_boom(op.get("exc", "exception"), op["k"])
+            if k == "cancel":
+                tw = self.workers[op["target"]]
+                tw.cancel_k = op["k"]
+                tw.task.cancel()           # the target finishes this operation once it has caught the error
+                continue
             if k == "enter":
                 await self.block(w, op)
             elif k == "spawn":
@@ -508,14 +585,21 @@ class Run:
                 def decorated():
                     return w.drive(self.body(w, True))
                 decorated()
-        except _Boom as b:
-            b.k -= 1
-            if b.k > 0:
+        except BaseException as b:
+            if isinstance(b, _BoomMixin):
+                b.k -= 1
+                if b.k > 0:
+                    raise
+            elif isinstance(b, asyncio.CancelledError) and w.cancel_k is not None:
+                w.cancel_k -= 1
+                if w.cancel_k > 0:
+                    raise
+                w.cancel_k = None
+                w.uncancel()
+            elif isinstance(b, Exception) and not isinstance(b, Hang):
+                self.events.append(("e", self.cur, core.err_kind(b)))
+            else:
                 raise
-        except Hang:
-            raise
-        except Exception as e:
-            self.events.append(("e", self.cur, core.err_kind(e)))
         w.finish()
 
     async def main(self, w):
@@ -523,7 +607,7 @@ class Run:
         try:
             try:
                 await self.body(w, False)
-            except _Boom:
+            except tuple(EXC_KINDS.values()):
                 self.errors.append("programme raised out of its top level")
             self.finals[w.c] = self.canon(self.lm.context.get())
             w.finish()
@@ -629,6 +713,10 @@ class ThreadWorker:
         self.dead = False
         self.ident = None
         self.thread = None
+        self.cancel_k = None
+
+    def uncancel(self):
+        pass
 
     def turn(self):
         return _Turn()
@@ -664,9 +752,18 @@ class TaskWorker:
         self.decos = {}
         self.ident = None
         self.task = None
+        self.cancel_k = None
+
+    def uncancel(self):
+        if hasattr(self.task, "uncancel"):
+            self.task.uncancel()
 
     async def turn(self):
-        op = await self.fut
+        try:
+            op = await self.fut
+        except asyncio.CancelledError:
+            self.fut = asyncio.get_event_loop().create_future()   # the old one was cancelled with us
+            raise
         self.fut = asyncio.get_event_loop().create_future()
         return op
 
@@ -736,10 +833,13 @@ def shrink(trace, mode, kinds):
 
     def valid(t):
         depth, alive, nlog, nh = {0: 0}, {0}, 1, 0
+        begun = set()
         for op in t:
             c, k = op["c"], op["op"]
             if c not in alive:
                 return False
+            if k != "cancel":
+                begun.add(c)
             if k == "enter":
                 depth[c] += 1
             elif k == "exit":
@@ -750,6 +850,11 @@ def shrink(trace, mode, kinds):
                 if depth[c] < op["k"]:
                     return False
                 depth[c] -= op["k"]
+            elif k == "cancel":
+                x = op["target"]
+                if x == c or x not in alive or x not in begun or depth[x] < op["k"]:
+                    return False
+                depth[x] -= op["k"]
             elif k in ("bind", "patch", "opt"):
                 if op["l"] >= nlog:
                     return False
@@ -778,9 +883,12 @@ def shrink(trace, mode, kinds):
         """remove context x (its spawn and all its operations), renumber the later ones"""
         out = []
         for op in t:
-            if op["c"] == x or (op["op"] == "spawn" and op["new"] == x):
+            if op["c"] == x or (op["op"] == "spawn" and op["new"] == x) or \
+                    (op["op"] == "cancel" and op["target"] == x):
                 continue
             op = dict(op)
+            if op["op"] == "cancel" and op["target"] > x:
+                op["target"] -= 1
             if op["c"] > x:
                 op["c"] -= 1
             if op["op"] == "spawn" and op["new"] > x:
@@ -918,7 +1026,8 @@ def run(ctx):
         ctx.stat("contexts", res["nworkers"])
         ctx.stat("max_block_depth_%d" % max_depth(trace))
         for op in trace:
-            ctx.stat("op:" + op["op"] + (":" + op["style"] if op["op"] == "enter" else ""))
+            ctx.stat("op:" + op["op"] + (":" + op["style"] if op["op"] == "enter" else "")
+                     + (":" + op.get("exc", "exception") if op["op"] == "raise" else ""))
         for kind, text in res["problems"]:
             if reported[0] < 4:
                 reported[0] += 1
@@ -1013,6 +1122,8 @@ def max_depth(trace):
             d[c] -= 1
         elif op["op"] == "raise":
             d[c] -= op["k"]
+        elif op["op"] == "cancel":
+            d[op["target"]] = d.get(op["target"], 0) - op["k"]
     return m
 
 
